@@ -615,7 +615,13 @@ int main(int argc, char **argv) {
     for (long j = 0; j < ncrowd; ++j) {
         long kk = kc0 + j;
         if (!a.want(kk)) continue;
-        vh::Rng r = vh::caseRng(a.seed, (uint64_t) j, crowdOpen ? 15 : 14);
+        // The plan's crowd cases are a FIXED battery (the same cases for every --seed): about 0.5% of all crowd cases make
+        // the unchanged doHOLA throw "Nodes do not have cardinal separation!" whatever the topology / start / options (an
+        // unregistered finding candidate), so a seed-dependent stream would alarm on the clean tree at some seeds.  The
+        // battery (quick = first 24, thorough = first 64 of stream 14 under the constant below) was run on the unchanged
+        // tree.  Search mode (--scale > 1) and --mode crowd-open use the real seed.
+        uint64_t cseed = (crowdOpen || a.scale > 1) ? a.seed : 0xC14ull;
+        vh::Rng r = vh::caseRng(cseed, (uint64_t) j, crowdOpen ? 15 : 14);
         int topo = topos[j % NT];
         int orient = (int) ((j / NT) % 4);
         int d = (int) r.range(8, 16);
